@@ -45,6 +45,8 @@ class Scenario:
         self.y = y = Signal(3, name="y")
         self.qa = qa = Signal(2, name="qa")           # circuit: registered ca + 1 in domain a
         self.qc = qc = Signal(2, name="qc")           # circuit: comb ca & ~rb
+        self.qb = qb = Signal(2, name="qb")           # circuit: registered ~ca in domain a
+        self.pp = Signal(4, name="pp")                # Cat(qa, qb) computed by TWO sync-replacement processes, each writing its own half
         self.pa = Signal(2, name="pa")                # the same, computed by a sync-replacement process
         self.pc = Signal(2, name="pc")                # the same, computed by a comb-replacement process
         # a signed signal whose halves are driven combinationally from two different fragments (two processes of one delta cycle)
@@ -58,6 +60,7 @@ class Scenario:
         m.d.b += rb.eq(ca ^ inp)
         m.d.comb += y.eq(x + inp)
         m.d.a += qa.eq(ca + 1)
+        m.d.a += qb.eq(~ca)
         m.d.comb += qc.eq(ca & ~rb)
         # a memory written from both domains: lane 0 by domain a, lane 1 by domain b, same row; when the active edges coincide
         # both per-domain memory processes run in the same delta cycle, in an order the engine does not define
@@ -84,7 +87,7 @@ class Scenario:
             log = []
             errs = []
             self.log, self.errs = log, errs
-            ca, rb, inp, pa, pc = self.ca, self.rb, self.inp, self.pa, self.pc
+            ca, rb, inp, pa, pc, pp = self.ca, self.rb, self.inp, self.pa, self.pc, self.pp
 
             if cfg["procs"]:
                 async def sync_proc(ctx):
@@ -99,8 +102,18 @@ class Scenario:
                     # guaranteed first wake-up of changed() at time 0 has to establish it
                     async for ca_v, rb_v in ctx.changed(ca, rb):
                         ctx.set(pc, ca_v & ~rb_v & 3)
+                async def half_lo(ctx):
+                    # two processes woken by the same edge write disjoint halves of one signal within one delta cycle
+                    async for clk_edge, rst, v in ctx.tick("a").sample(ca):
+                        ctx.set(pp[:2], 0 if rst else (v + 1) & 3)
+
+                async def half_hi(ctx):
+                    async for clk_edge, rst, v in ctx.tick("a").sample(ca):
+                        ctx.set(pp[2:], 0 if rst else ~v & 3)
                 sim.add_process(sync_proc)
                 sim.add_process(comb_proc)
+                sim.add_process(half_lo)
+                sim.add_process(half_hi)
             for tid, script in enumerate(cfg["scripts"]):
                 sim.add_testbench(self.make_tb(tid, script))
             # ---- own the nondeterminism
@@ -129,7 +142,7 @@ class Scenario:
                 sched.enabled = False
             # final state of every signal, read straight from the engine (a testbench cannot be added to a running simulation)
             try:
-                final = [eng.get_value(sig) for sig in (self.ca, self.rb, self.x, self.y, self.qa, self.qc, self.pa, self.pc)]
+                final = [eng.get_value(sig) for sig in (self.ca, self.rb, self.x, self.y, self.qa, self.qc, self.pa, self.pc, self.qb, self.pp)]
                 final += [eng.get_value(self.mem.data[i]) for i in range(2)] + [eng.get_value(self.sg)]
             except Exception as ex:
                 final = []
@@ -148,8 +161,10 @@ class Scenario:
                 return ctx.elapsed_time().femtoseconds
 
             def snap(tag):
-                vals = tuple(ctx.get(sig) for sig in (s.ca, s.rb, s.x, s.y, s.qa, s.qc, s.pa, s.pc, s.inp, s.rp.data, s.sg))
-                ca_v, rb_v, x_v, y_v, qa_v, qc_v, pa_v, pc_v, inp_v, mem_v, sg_v = vals
+                vals = tuple(ctx.get(sig) for sig in (s.ca, s.rb, s.x, s.y, s.qa, s.qc, s.pa, s.pc, s.inp, s.rp.data, s.sg, s.qb, s.pp))
+                ca_v, rb_v, x_v, y_v, qa_v, qc_v, pa_v, pc_v, inp_v, mem_v, sg_v, qb_v, pp_v = vals
+                if cfg["procs"] and pp_v != (qa_v | (qb_v << 2)):
+                    errs.append(f"tb{tid} {tag} t={now()}: signal written in halves by two sync-replacement processes reads {pp_v:#x}, circuit registers give {qa_v | (qb_v << 2):#x}")
                 want_sg = (rb_v | (ca_v << 2))
                 want_sg = want_sg - 16 if want_sg & 8 else want_sg
                 if sg_v != want_sg:
